@@ -5,12 +5,14 @@ import (
 	"fmt"
 	"io"
 	"net"
+	"net/http/httputil"
 	"strconv"
 	"strings"
 	"sync"
 	"time"
 
 	"github.com/saucelabs/forwarder"
+	"github.com/saucelabs/forwarder/httplog"
 	"github.com/saucelabs/forwarder/verifharness/lib"
 	"github.com/saucelabs/forwarder/verifharness/wiring"
 )
@@ -120,8 +122,13 @@ func (w *world) originHandler(oc *lib.OConn, req *lib.Msg) lib.Action {
 	}
 	n, _ := strconv.Atoi(p[2])
 	key, _ := strconv.ParseUint(p[3], 16, 64)
-	if p[1] == "dl" {
-		fmt.Fprintf(oc.C, "HTTP/1.1 200 OK\r\nContent-Type: application/octet-stream\r\nContent-Length: %d\r\n\r\n", n)
+	if p[1] == "dl" || p[1] == "dlc" {
+		chunked := p[1] == "dlc" // no Content-Length: the body is delimited by chunks
+		if chunked {
+			fmt.Fprintf(oc.C, "HTTP/1.1 200 OK\r\nContent-Type: application/octet-stream\r\nTransfer-Encoding: chunked\r\n\r\n")
+		} else {
+			fmt.Fprintf(oc.C, "HTTP/1.1 200 OK\r\nContent-Type: application/octet-stream\r\nContent-Length: %d\r\n\r\n", n)
+		}
 		buf := make([]byte, 64<<10)
 		for off := 0; off < n; {
 			k := len(buf)
@@ -129,10 +136,19 @@ func (w *world) originHandler(oc *lib.OConn, req *lib.Msg) lib.Action {
 				k = n - off
 			}
 			lib.FillStream(buf[:k], off, key)
+			if chunked {
+				fmt.Fprintf(oc.C, "%x\r\n", k)
+			}
 			if _, err := oc.C.Write(buf[:k]); err != nil {
 				return lib.Close
 			}
+			if chunked {
+				oc.C.Write([]byte("\r\n"))
+			}
 			off += k
+		}
+		if chunked {
+			oc.C.Write([]byte("0\r\n\r\n"))
 		}
 		return lib.Continue
 	}
@@ -282,6 +298,9 @@ type tcase struct {
 	capT time.Duration
 	// pp: the listener expects a PROXY protocol header (the limits apply to such a listener too)
 	pp bool
+	// logBody: exchanges are logged in body mode (the logging layer then holds whole bodies);
+	// chunked: the origin sends the download without a Content-Length
+	logBody, chunked bool
 }
 
 type outcome struct {
@@ -300,6 +319,9 @@ func runCase(run *lib.Run, w *world, tc tcase, idx int, r *lib.RNG) outcome {
 			cfg.WriteLimit = forwarder.SizeSuffix(tc.w)
 			if tc.pp {
 				cfg.ProxyProtocolConfig = forwarder.DefaultProxyProtocolConfig()
+			}
+			if tc.logBody {
+				cfg.LogHTTPMode = httplog.Body
 			}
 		},
 		Transport: func(tcfg *forwarder.HTTPTransportConfig) {
@@ -417,7 +439,11 @@ func runCase(run *lib.Run, w *world, tc tcase, idx int, r *lib.RNG) outcome {
 			}
 			switch {
 			case tc.via == "http" && tc.dir == "download":
-				fmt.Fprintf(c, "GET http://origin.test/dl/%d/%s HTTP/1.1\r\nHost: origin.test\r\n\r\n", tc.size, ks)
+				path := "dl"
+				if tc.chunked {
+					path = "dlc"
+				}
+				fmt.Fprintf(c, "GET http://origin.test/%s/%d/%s HTTP/1.1\r\nHost: origin.test\r\n\r\n", path, tc.size, ks)
 				// read the head byte-wise, then the body with timestamps
 				head := make([]byte, 0, 512)
 				one := make([]byte, 1)
@@ -432,7 +458,11 @@ func runCase(run *lib.Run, w *world, tc tcase, idx int, r *lib.RNG) outcome {
 					fail("download status: " + lib.Trunc(string(head), 80))
 					return
 				}
-				readStream(tc.size, out.rec, c)
+				if strings.Contains(strings.ToLower(string(head)), "transfer-encoding: chunked") {
+					readStream(tc.size, out.rec, httputil.NewChunkedReader(c))
+				} else {
+					readStream(tc.size, out.rec, c)
+				}
 			case tc.via == "http" && tc.dir == "upload":
 				fmt.Fprintf(c, "POST http://upload.test/ul/%d/%s HTTP/1.1\r\nHost: upload.test\r\nContent-Length: %d\r\n\r\n", tc.size, ks, tc.size)
 				if !writeStream(tc.size, nil) {
@@ -511,6 +541,10 @@ func main() {
 		{name: "W2-tunnel-ul", w: 2 * MiB, dir: "upload", via: "tunnel", conns: 1, size: 12 * MiB, limited: true},
 		{name: "R2-pp-dl", r: 2 * MiB, dir: "download", via: "http", conns: 1, size: 12 * MiB, limited: true, pp: true},
 		{name: "W2-pp-tunnel-ul", w: 2 * MiB, dir: "upload", via: "tunnel", conns: 2, size: 6 * MiB, limited: true, pp: true},
+		// bodies that the logging layer or the framing hands to the connection in other pieces than the usual copy buffer
+		{name: "R1-chunked-dl", r: 1 * MiB, dir: "download", via: "http", conns: 1, size: 8 * MiB, limited: true, chunked: true},
+		{name: "R1-logbody-dl", r: 1 * MiB, dir: "download", via: "http", conns: 1, size: 8 * MiB, limited: true, logBody: true},
+		{name: "R1-logbody-chunked-dl", r: 1 * MiB, dir: "download", via: "http", conns: 1, size: 8 * MiB, limited: true, logBody: true, chunked: true},
 		{name: "R1W4-dl", r: 1 * MiB, w: 4 * MiB, dir: "download", via: "http", conns: 1, size: 9 * MiB, limited: true},
 		{name: "R1W4-ul", r: 1 * MiB, w: 4 * MiB, dir: "upload", via: "tunnel", conns: 1, size: 20 * MiB, limited: true},
 		// many connections queueing on one limiter: each write waits longer than a second
